@@ -17,6 +17,9 @@ pub fn child_main(jobdir: &Path) {
         .expect("job.json");
     crate::pipeline::install_panic_hook();
     if !job.warm.is_empty() {
+        // the earlier compilation runs on a thread of its own, like the repository's own tests do
+        // (several compilations per process, one per thread): thread-local tables start fresh,
+        // the process-global ones (codegen's layout / final-type tables) are shared
         let warm_dir = jobdir.join("warm");
         let back = std::env::current_dir().unwrap();
         if std::env::set_current_dir(&warm_dir).is_ok() {
@@ -25,9 +28,16 @@ pub fn child_main(jobdir: &Path) {
             warm_job.warm.clear();
             warm_job.run = false;
             warm_job.link = false;
-            let _ = std::panic::catch_unwind(std::panic::AssertUnwindSafe(|| {
-                crate::pipeline::run_job(&warm_job, &jobdir.join("progress_warm"))
-            }));
+            let progress = jobdir.join("progress_warm");
+            let handle = std::thread::Builder::new()
+                .stack_size(256 << 20)
+                .spawn(move || {
+                    let _ = std::panic::catch_unwind(std::panic::AssertUnwindSafe(|| {
+                        crate::pipeline::run_job(&warm_job, &progress)
+                    }));
+                })
+                .expect("spawn warm-up thread");
+            let _ = handle.join();
             let _ = crate::pipeline::take_panic();
         }
         std::env::set_current_dir(back).unwrap();
